@@ -14,6 +14,7 @@ import sys
 import time
 import traceback
 
+DEFAULT_REPO = os.environ.get('VERIF_REPO', '/repo')
 ROOT = os.path.dirname(os.path.dirname(os.path.abspath(__file__)))
 if ROOT not in sys.path:
   sys.path.insert(0, ROOT)
@@ -163,6 +164,30 @@ def witness_and_replay(prop, unit, obname, repo, outdir):
   return path, confirmed
 
 
+def replay_only(prop, unit, repo, outdir, reason):
+  """The unit's text changed into something the engine cannot put under its contract (no obligations to refute):
+  the unit's replay scenarios are run on the real code as a stand-in.  Only a confirmed failure is reported."""
+  os.makedirs(outdir, exist_ok=True)
+  path = os.path.join(outdir, re.sub(r'[^A-Za-z0-9_.-]+', '_', '%s__unverifiable' % unit)[:150] + '.json')
+  rec = dict(property=prop, unit=unit, obligation='contract of %s (not checkable on the changed text)' % unit, repo=repo,
+             description='the changed function is outside the verified subset (%s); replay of its contract scenarios on the real code' % reason,
+             witness=None, solver_output='no verification conditions could be generated: ' + reason)
+  with open(path, 'w') as f:
+    json.dump(rec, f, indent=1, default=str)
+  confirmed = False
+  try:
+    p = subprocess.run([VENV_PY, os.path.join(ROOT, 'pyvc', 'replay.py'), path], stdout=subprocess.PIPE, stderr=subprocess.STDOUT, timeout=120,
+                       env=dict(os.environ, PYTHONPATH=repo + os.pathsep + ROOT))
+    rec['replay_output'] = p.stdout.decode(errors='replace')[-4000:]
+    confirmed = (p.returncode == 10)
+  except Exception as e:
+    rec['replay_output'] = 'replay failed to run: %s' % e
+  rec['replay_confirmed'] = confirmed
+  with open(path, 'w') as f:
+    json.dump(rec, f, indent=1, default=str)
+  return path, confirmed
+
+
 def _witness_task(args):
   prop, unit, obname, repo, outdir = args
   try:
@@ -279,6 +304,19 @@ def run_check(prop, tier, repo, jobs, seed, record_baseline=False):
         undecided_obs.append(ob)
         continue
       lines.append('  failed obligation %s::%s (%s)' % (ob['unit'], ob['name'], ob['desc']))
+  # units that could not be put under contract at all (or only in part, with nothing refuted) although their text
+  # changed since the recorded baseline: replay stand-in
+  for g in gens:
+    b = baseline.get(g['unit'], {})
+    changed = b.get('hash') is not None and g.get('hash') is not None and b.get('hash') != g['hash']
+    if changed and (g['error'] or g.get('degraded')) and not any(v[0]['unit'] == g['unit'] for v in vio_records):
+      path, confirmed = replay_only(prop, g['unit'], repo, outdir, (g['error'] or '; '.join(g['degraded'])).split('\n')[0][:200])
+      if confirmed:
+        ob = dict(unit=g['unit'], name='contract-not-checkable', desc='changed text outside the verified subset; replay of the contract scenarios fails on the real code',
+                  status='failed', backend='replay', line=g.get('line'), path=[])
+        vio_records.append((ob, path, True))
+        lines.append('VIOLATION property=%s replay=%s' % (prop, path))
+        lines.append('  %s: %s' % (g['unit'], ob['desc']))
   violations = [v[0] for v in vio_records]
   unknown = undecided_obs
   for g in errors:
@@ -361,8 +399,11 @@ def write_evidence(prop, tier, seed, pmod, gens, all_obs, n_ob, n_dis, known_hit
     assumptions=list(getattr(pmod, 'ASSUMPTIONS', [])),
   )
   # a proof-level claim needs discharged == obligations; if not, say what this run is worth
-  os.makedirs(os.path.join(ROOT, 'evidence'), exist_ok=True)
-  with open(os.path.join(ROOT, 'evidence', prop + '.json'), 'w') as f:
+  # evidence/ describes the tree the registered commands check (/repo); runs against a scratch copy (--repo DIR,
+  # used for seeded changes) keep theirs apart
+  evdir = os.path.join(ROOT, 'evidence') if os.path.realpath(repo) == os.path.realpath(DEFAULT_REPO) else os.path.join(ROOT, 'replays', 'scratch-evidence')
+  os.makedirs(evdir, exist_ok=True)
+  with open(os.path.join(evdir, prop + '.json'), 'w') as f:
     json.dump(ev, f, indent=1, default=str)
 
 
